@@ -37,6 +37,37 @@ def corpus(prop):
     return out
 
 
+# every op sequence up to a fixed length over a small alphabet, on a pool of size 1 and on one of size 2: a systematic
+# complement of the seeded random profiles (the same for every property; its own projection and monitors apply)
+EX_ALPHABET = [
+    "on 0 apply 2 G g 0 n c 0 1 -",          # apply(num=2) in group G: gated workers, coroutine cancel callback
+    "on 0 map 0 000 1 H g1 0 p n 1 -",       # map over 3 elements, num_concurrent=1, workers with two awaits, plain end callback
+    "on 0 cancel 0",
+    "on 0 cancel_group G",
+    "on 0 cancel_all",
+    "on 0 gate 0 ok",
+    "on 0 gate 1 ok",
+    "run",
+    "on 0 flush 1",
+    "on 0 lock",
+    "on 0 gac 1",
+]
+EX_LEN = {"quick": 4, "thorough": 5}
+
+
+def exhaustive_bodies(tier):
+    import itertools
+    out = []
+    for size in ("1", "2"):
+        for n in range(1, EX_LEN[tier] + 1):
+            if size == "2" and n > EX_LEN[tier] - 1:
+                continue
+            for seq in itertools.product(range(len(EX_ALPHABET)), repeat=n):
+                out.append((f"ex:{size}:" + "".join(format(k, "x") for k in seq),
+                            [f"mkpool task {size} -"] + [EX_ALPHABET[k] for k in seq]))
+    return out
+
+
 def model_obs(lines):
     res = model.run_driver("tpdriver", lines)
     outs, bits = [], []
@@ -244,8 +275,9 @@ def run(prop, tier, seed, jobs, proof, out):
     chunks = max(jobs * 2, 1)
     per = max(1, total // chunks)
     jobl = []
+    exb = exhaustive_bodies(tier)
     for k in range(chunks):
-        jobl.append((prop, seed, k * per, per, bodies if k == 0 else []))
+        jobl.append((prop, seed, k * per, per, (bodies if k == 0 else []) + exb[k::chunks]))
     agg = {"histories": 0, "lines": 0, "ambiguous": 0, "stats": collections.Counter(), "failures": [],
            "digests": set(), "nontrivial": set(), "samples": [], "handles": 0, "hookcalls": 0}
     with mp.Pool(min(jobs, chunks)) as pool:
@@ -335,6 +367,9 @@ def run(prop, tier, seed, jobs, proof, out):
         "corpus_histories": len(bodies),
         "projection": {"fields": props.PROJ[prop][0], "events": list(props.PROJ[prop][1])},
         "exhaustive": False,
+        "exhaustive_subspace": {"histories": len(exb), "max_len": EX_LEN[tier], "alphabet": EX_ALPHABET,
+                                "pools": "TaskPool of size 1 (all lengths) and of size 2 (one op shorter)",
+                                "note": "every op sequence up to max_len over the alphabet, each followed by the wind-down"},
     })
     ev = {"property_id": prop, "tier": tier, "seed": seed, "level": "proof", "coverage": cov,
           "assumptions": [
